@@ -128,6 +128,8 @@ typedef struct {
 #define TG_F_PAL    256
 #define TG_F_BIG    512
 #define TG_F_ALL    1023
+#define TG_F_SPECIAL 1024 /* (not in TG_F_ALL) float32 / float64 values - SDS data, dimension scales, fill values, attributes, vdata
+                             fields, images - include NaN (quiet / signalling, both signs, payloads), +-Inf, -0.0, denormals, +-FLT_MAX / DBL_MAX */
 
 static const int32 TG_NTS[] = {DFNT_INT8, DFNT_UINT8, DFNT_INT16, DFNT_UINT16, DFNT_INT32, DFNT_UINT32,
                                DFNT_FLOAT32, DFNT_FLOAT64, DFNT_CHAR8, DFNT_UCHAR8};
@@ -135,12 +137,36 @@ static const int32 TG_NTS[] = {DFNT_INT8, DFNT_UINT8, DFNT_INT16, DFNT_UINT16, D
 
 static int tg_ntsize(int32 nt) { return DFKNTsize((nt & DFNT_MASK) | DFNT_NATIVE); }
 
-/* deterministic NaN-free values: element k of a buffer of type nt, derived from salt */
+/* the IEEE special values, as bit patterns (a signalling NaN must not go through a floating-point conversion) */
+static const uint32_t TG_SP32[] = {0x7fc00000u /* quiet NaN */, 0xffc00000u /* -NaN */, 0x7f800001u /* signalling NaN */, 0x7fc12345u /* payload */,
+                                   0xffa00001u /* -sNaN, payload */, 0x7f800000u /* +Inf */, 0xff800000u /* -Inf */, 0x80000000u /* -0.0 */,
+                                   0x00000001u /* least denormal */, 0x807fffffu /* -greatest denormal */, 0x7f7fffffu /* FLT_MAX */, 0xff7fffffu,
+                                   0x00800000u /* FLT_MIN */, 0x7f800000u, 0x7fc00000u};
+static const uint64_t TG_SP64[] = {0x7ff8000000000000ull, 0xfff8000000000000ull, 0x7ff0000000000001ull, 0x7ff8000000012345ull,
+                                   0xfff4000000000001ull, 0x7ff0000000000000ull, 0xfff0000000000000ull, 0x8000000000000000ull,
+                                   0x0000000000000001ull, 0x800fffffffffffffull, 0x7fefffffffffffffull, 0xffefffffffffffffull,
+                                   0x0010000000000000ull, 0x7ff0000000000000ull, 0x7ff8000000000000ull};
+#define TG_NSP 15
+static int tg_special; /* set from the TG_F_SPECIAL bit of the spec by tg_random / tg_write */
+
+/* does element k of the buffer derived from salt hold a special value?  (one object in three has none, the others about one in five) */
+static int tg_sp_at(long k, int salt)
+{
+    uint32_t h = (uint32_t)k * 2654435761u + (uint32_t)salt * 40503u;
+    return tg_special && salt % 3 != 0 && ((h >> 9) % 5 == 0);
+}
+
+/* deterministic values (NaN-free unless TG_F_SPECIAL): element k of a buffer of type nt, derived from salt */
 static void tg_fill(void *buf, int32 nt, long n, int salt)
 {
     long k;
     for (k = 0; k < n; k++) {
         long v = (k * 7 + salt * 13 + (k >> 5) + ((k % 11 == 0) ? salt : 0)) % 251;
+        if ((nt == DFNT_FLOAT32 || nt == DFNT_FLOAT64) && tg_sp_at(k, salt)) {
+            int w = (int)((k * 5 + salt + (k >> 3)) % TG_NSP);
+            if (nt == DFNT_FLOAT32) memcpy((float32 *)buf + k, &TG_SP32[w], 4); else memcpy((float64 *)buf + k, &TG_SP64[w], 8);
+            continue;
+        }
         switch (nt) {
             case DFNT_INT8: ((int8 *)buf)[k] = (int8)(v - 100); break;
             case DFNT_UINT8:
@@ -188,6 +214,7 @@ static void tg_random(tg_spec_t *s, int features)
     int i, j;
     memset(s, 0, sizeof *s);
     s->features = features;
+    tg_special  = (features & TG_F_SPECIAL) != 0;
     s->big      = -1;
     s->nvg      = (features & TG_F_VG) ? (int)hk_range(0, TG_MAXVG) : 0;
     for (i = 0; i < s->nvg; i++) {
@@ -361,8 +388,9 @@ static int tg_write(const char *path, tg_spec_t *s)
     int32 sd, fid, gr, an;
     int   i, j;
     int32 vgid[TG_MAXVG];
-    tg_nerr = 0;
-    sd      = SDstart(path, DFACC_CREATE);
+    tg_nerr    = 0;
+    tg_special = (s->features & TG_F_SPECIAL) != 0;
+    sd         = SDstart(path, DFACC_CREATE);
     if (sd == FAIL) return -1;
     for (i = 0; i < s->nsds; i++) {
         tg_sds_t *d = &s->sds[i];
